@@ -74,3 +74,12 @@ Proof.
 Qed.
 
 Print Assumptions src_wbs_getitem_eq.
+
+(* ---- the setter of Task.estimate: a negative amount is refused, anything else is stored ---- *)
+Theorem src_set_estimate_eq : forall s t e, src_set_estimate (hp s) t e = lift_set s (set_est s t e).
+Proof.
+  intros s t e. unfold src_set_estimate, set_est, lift_set. destruct e as [v|]; [|reflexivity].
+  destruct (v <? 0)%Z; reflexivity.
+Qed.
+
+Print Assumptions src_set_estimate_eq.
